@@ -40,6 +40,32 @@ impl Entry {
     }
 }
 
+thread_local! {
+    static IN_LIBRARY: std::cell::Cell<u32> = std::cell::Cell::new(0);
+}
+/// true while a call into the library under test is in progress on this thread (its panics are data)
+pub fn in_library() -> bool {
+    IN_LIBRARY.with(|c| c.get() > 0)
+}
+pub struct LibScope;
+impl LibScope {
+    pub fn enter() -> LibScope {
+        IN_LIBRARY.with(|c| c.set(c.get() + 1));
+        LibScope
+    }
+}
+impl Drop for LibScope {
+    fn drop(&mut self) {
+        IN_LIBRARY.with(|c| c.set(c.get().saturating_sub(1)));
+    }
+}
+
+/// catch_unwind around a direct call into the library
+pub fn lib_catch<R>(f: impl FnOnce() -> R) -> std::thread::Result<R> {
+    let _l = LibScope::enter();
+    catch_unwind(AssertUnwindSafe(f))
+}
+
 pub fn advertised<T: FftNum>(fft: &dyn Fft<T>) -> [usize; 3] {
     [
         fft.get_inplace_scratch_len(),
@@ -65,6 +91,7 @@ pub fn run_call<T: FftNum>(
     scratch_init: &[Complex<T>],
     guard: Option<Align>,
 ) -> CallResult<T> {
+    let _lib = LibScope::enter();
     match guard {
         None => {
             let mut data = input.to_vec();
